@@ -60,6 +60,7 @@ struct wcmd {
         uint8_t has_desc;
         uint8_t hmask;
         uint8_t only_test, disable, implicit, need_all;
+        uint8_t var_ptr;       /* descriptor sets .var to a non-NULL pointer although var_num is 0 */
         uint8_t nvar;
         struct wvar var[W_MAXVAR];
         uint8_t group;         /* group index for registered commands */
